@@ -85,7 +85,9 @@ def handle (f : String) (j : Json) : Option (Except String Json) :=
       pure <| okHex (encodeState ⟨h, t⟩)
   | "abi.state.dec" => some do
       let b ← bytes j "data"
-      pure <| ofG "invalid-attestation" (fun s => Json.mkObj [("height", num s.height), ("timestamp", num s.timestamp)]) (decodeState b)
+      pure <| match decodeState b with
+        | .err "invalid-timestamp" => err "invalid-timestamp"
+        | r => ofG "invalid-attestation" (fun s => Json.mkObj [("height", num s.height), ("timestamp", num s.timestamp)]) r
   | "abi.packetatt.enc" => some do
       let a ← getPacketAtt j
       pure <| okHex (encodePacketAtt a)
